@@ -204,3 +204,36 @@ package writer
 //@   loop 1 invariant [one-failure-callback-per-failed-downstream-call] failCalls - before(failCalls) == replicateFailures - before(replicateFailures)
 //@   loop 1 invariant [one-success-callback-per-successful-downstream-call] successCalls - before(successCalls) == (opCalls - before(opCalls)) - (replicateFailures - before(replicateFailures))
 //@   loop 1 invariant [a-failure-is-reported-with-the-error-of-the-failed-call] prev(replicateFailures) < replicateFailures ==> lastFailErr == lastReplicateErr && lastFailErr != nil
+
+// ---- C20: the dispatch tables map every supported kind to the operation of that kind, and nothing else ---------------
+// boundTo(f, "m", c): the function value f is the method value c.m
+//@ func (*ChannelWriter).initOPMessageFuncs
+//@   props C20
+//@   requires c != nil
+//@   ensures [CreateDatabase-messages-go-to-createDatabase] commonpb.MsgType_CreateDatabase in c.opMessageFuncs && boundTo(c.opMessageFuncs[commonpb.MsgType_CreateDatabase], "createDatabase", c)
+//@   ensures [DropDatabase-messages-go-to-dropDatabase] commonpb.MsgType_DropDatabase in c.opMessageFuncs && boundTo(c.opMessageFuncs[commonpb.MsgType_DropDatabase], "dropDatabase", c)
+//@   ensures [AlterDatabase-messages-go-to-alterDatabase] commonpb.MsgType_AlterDatabase in c.opMessageFuncs && boundTo(c.opMessageFuncs[commonpb.MsgType_AlterDatabase], "alterDatabase", c)
+//@   ensures [Flush-messages-go-to-flush] commonpb.MsgType_Flush in c.opMessageFuncs && boundTo(c.opMessageFuncs[commonpb.MsgType_Flush], "flush", c)
+//@   ensures [CreateIndex-messages-go-to-createIndex] commonpb.MsgType_CreateIndex in c.opMessageFuncs && boundTo(c.opMessageFuncs[commonpb.MsgType_CreateIndex], "createIndex", c)
+//@   ensures [DropIndex-messages-go-to-dropIndex] commonpb.MsgType_DropIndex in c.opMessageFuncs && boundTo(c.opMessageFuncs[commonpb.MsgType_DropIndex], "dropIndex", c)
+//@   ensures [AlterIndex-messages-go-to-alterIndex] commonpb.MsgType_AlterIndex in c.opMessageFuncs && boundTo(c.opMessageFuncs[commonpb.MsgType_AlterIndex], "alterIndex", c)
+//@   ensures [LoadCollection-messages-go-to-loadCollection] commonpb.MsgType_LoadCollection in c.opMessageFuncs && boundTo(c.opMessageFuncs[commonpb.MsgType_LoadCollection], "loadCollection", c)
+//@   ensures [ReleaseCollection-messages-go-to-releaseCollection] commonpb.MsgType_ReleaseCollection in c.opMessageFuncs && boundTo(c.opMessageFuncs[commonpb.MsgType_ReleaseCollection], "releaseCollection", c)
+//@   ensures [LoadPartitions-messages-go-to-loadPartitions] commonpb.MsgType_LoadPartitions in c.opMessageFuncs && boundTo(c.opMessageFuncs[commonpb.MsgType_LoadPartitions], "loadPartitions", c)
+//@   ensures [ReleasePartitions-messages-go-to-releasePartitions] commonpb.MsgType_ReleasePartitions in c.opMessageFuncs && boundTo(c.opMessageFuncs[commonpb.MsgType_ReleasePartitions], "releasePartitions", c)
+//@   ensures [CreateCredential-messages-go-to-createCredential] commonpb.MsgType_CreateCredential in c.opMessageFuncs && boundTo(c.opMessageFuncs[commonpb.MsgType_CreateCredential], "createCredential", c)
+//@   ensures [DeleteCredential-messages-go-to-deleteCredential] commonpb.MsgType_DeleteCredential in c.opMessageFuncs && boundTo(c.opMessageFuncs[commonpb.MsgType_DeleteCredential], "deleteCredential", c)
+//@   ensures [UpdateCredential-messages-go-to-updateCredential] commonpb.MsgType_UpdateCredential in c.opMessageFuncs && boundTo(c.opMessageFuncs[commonpb.MsgType_UpdateCredential], "updateCredential", c)
+//@   ensures [CreateRole-messages-go-to-createRole] commonpb.MsgType_CreateRole in c.opMessageFuncs && boundTo(c.opMessageFuncs[commonpb.MsgType_CreateRole], "createRole", c)
+//@   ensures [DropRole-messages-go-to-dropRole] commonpb.MsgType_DropRole in c.opMessageFuncs && boundTo(c.opMessageFuncs[commonpb.MsgType_DropRole], "dropRole", c)
+//@   ensures [OperateUserRole-messages-go-to-operateUserRole] commonpb.MsgType_OperateUserRole in c.opMessageFuncs && boundTo(c.opMessageFuncs[commonpb.MsgType_OperateUserRole], "operateUserRole", c)
+//@   ensures [OperatePrivilege-messages-go-to-operatePrivilege] commonpb.MsgType_OperatePrivilege in c.opMessageFuncs && boundTo(c.opMessageFuncs[commonpb.MsgType_OperatePrivilege], "operatePrivilege", c)
+//@   ensures [no-other-message-type-is-dispatched] forall k commonpb.MsgType :: {mhas(c.opMessageFuncs, k)} k in c.opMessageFuncs ==> k == commonpb.MsgType_CreateDatabase || k == commonpb.MsgType_DropDatabase || k == commonpb.MsgType_AlterDatabase || k == commonpb.MsgType_Flush || k == commonpb.MsgType_CreateIndex || k == commonpb.MsgType_DropIndex || k == commonpb.MsgType_AlterIndex || k == commonpb.MsgType_LoadCollection || k == commonpb.MsgType_ReleaseCollection || k == commonpb.MsgType_LoadPartitions || k == commonpb.MsgType_ReleasePartitions || k == commonpb.MsgType_CreateCredential || k == commonpb.MsgType_DeleteCredential || k == commonpb.MsgType_UpdateCredential || k == commonpb.MsgType_CreateRole || k == commonpb.MsgType_DropRole || k == commonpb.MsgType_OperateUserRole || k == commonpb.MsgType_OperatePrivilege
+//@ func (*ChannelWriter).initAPIEventFuncs
+//@   props C20
+//@   requires c != nil
+//@   ensures [ReplicateCreateCollection-events-go-to-createCollection] api.ReplicateCreateCollection in c.apiEventFuncs && boundTo(c.apiEventFuncs[api.ReplicateCreateCollection], "createCollection", c)
+//@   ensures [ReplicateDropCollection-events-go-to-dropCollection] api.ReplicateDropCollection in c.apiEventFuncs && boundTo(c.apiEventFuncs[api.ReplicateDropCollection], "dropCollection", c)
+//@   ensures [ReplicateCreatePartition-events-go-to-createPartition] api.ReplicateCreatePartition in c.apiEventFuncs && boundTo(c.apiEventFuncs[api.ReplicateCreatePartition], "createPartition", c)
+//@   ensures [ReplicateDropPartition-events-go-to-dropPartition] api.ReplicateDropPartition in c.apiEventFuncs && boundTo(c.apiEventFuncs[api.ReplicateDropPartition], "dropPartition", c)
+//@   ensures [no-other-event-type-is-dispatched] forall k api.ReplicateAPIEventType :: {mhas(c.apiEventFuncs, k)} k in c.apiEventFuncs ==> k == api.ReplicateCreateCollection || k == api.ReplicateDropCollection || k == api.ReplicateCreatePartition || k == api.ReplicateDropPartition
